@@ -568,7 +568,7 @@ if __name__ == '__main__':
                        'Driver/C17.lean'],
         harness_name='c17', harness_sources=[os.path.join(C.VERIF, 'harness', 'c17.cpp')],
         gen_ops=gen_ops_final, monitor=monitor, nontrivial=nontrivial, extra_stage=extra_stage,
-        n_quick=600, n_thorough=24000, search_factor=3,
+        n_quick=600, n_thorough=96000, search_factor=3,
         trusted_base=[
             'Lean 4.33 kernel + Mathlib (axioms: propext, Classical.choice, Quot.sound)',
             'gen/cxxparse.py + gen/gen_c17.py (translator: constants, decision / update expressions, '
